@@ -204,7 +204,7 @@ def _gen_cmd_v():
         txt += "From Pq Require Extract.%s.\n" % m
     txt += "Import ListNotations.\nOpen Scope string_scope.\n"
     txt += "Definition table : list (string * handler) :=\n  " + " ++\n  ".join("%s.table" % m for m in mods) + ".\n"
-    txt += """Definition run (s : sx) : sx :=
+    txt += """Definition pqref_main (s : sx) : sx :=
   match s with
   | SL (SB c :: args) =>
     match dispatch table c with Some h => h args | None => err "unknown command" end
